@@ -28,6 +28,9 @@ def load_check(prop):
 
 def load_known():
     p = os.path.join(ROOT, 'known_findings.json')
+    if os.environ.get('VERIF_IGNORE_KNOWN'):
+        # development aid: produce minimised replay files for known findings
+        return {'known': [], 'fixed': []}
     if not os.path.exists(p):
         return {'known': [], 'fixed': []}
     with open(p) as f:
